@@ -10,21 +10,30 @@ from ..engine.match import dotted, norm, func_body_stmts
 from ..engine.srcmodel import AnalysisError
 
 EXPLANATION = (
-    "Guarded-operation, argument-role and pairing rules over the three "
-    "simplifier passes of dagrt/codegen/dag_ast.py. Decides: every sequence "
-    "pushed onto the consuming end of a work-list deque is reversed "
-    "(order-preserving splice); every pop/peek of a work-list is preceded by "
-    "a non-emptiness guard on every path (forward dataflow on the CFG); no "
-    "popped child is dropped and output is built by append only; each "
-    "stripped negation is paired with one swap of the arms; the nested "
-    "same-condition collapse and the merge of adjacent conditionals take the "
-    "arm that matches the slot, under an equality guard on the conditions, "
-    "earlier node first; constant conditions select the right arm; the pre/"
-    "post passes keep condition polarity; every identity-mapper handler "
-    "rebuilds a node with each constructor slot fed from the same slot. "
-    "Does not decide: trace equivalence for every tree (would need "
-    "execution); soundness of merging relies on the single-definition rule "
-    "for flags (C10).")
+    "Path-sensitive dataflow over sets of worlds plus guarded-operation, "
+    "ownership and work-list rules over the simplifier passes of "
+    "dagrt/codegen/dag_ast.py. Decides: for every conditional / loop / block "
+    "handler of the identity, normalising, merge and null-dropping pass, in "
+    "every combination of (condition = a flag under 0-3 negations or a "
+    "constant) x (each child null before / after simplification, or a "
+    "conditional on the same / another flag), that the returned tree runs "
+    "exactly the children the node ran under every valuation - negation "
+    "parity, constant selection, same-condition collapse, polarity of a "
+    "dropped arm - that children went through self.rec, and that the last "
+    "pass leaves no NullASTNode where lower_node would meet it (helpers of "
+    "the repository are followed into); in the merge pass's block handler: "
+    "every sequence pushed onto the consuming end of the work-list is "
+    "reversed, the work-list is consumed from one end, every pop/peek is "
+    "preceded by a non-emptiness guard on every path (forward dataflow on "
+    "the CFG), the loops end only when the list is empty, no popped child is "
+    "dropped (ownership dataflow) and output is built by append only, "
+    "adjacent conditionals are merged only under equal conditions, arm with "
+    "arm, earlier first, nothing else is fused; every identity-mapper handler "
+    "rebuilds a node with each constructor slot fed from the same slot; "
+    "simplify_ast is applied only to the tree the lowering builds. Does not "
+    "decide: trace equivalence of the merge pass's block handler for every "
+    "tree (would need execution); soundness of merging relies on the "
+    "single-definition rule for flags (C10).")
 
 ASSUMPTIONS = [
     "deque.extendleft(it) inserts the items of it in reverse order; popleft/pop/[0] raise on an empty deque",
